@@ -75,6 +75,16 @@ struct Val {
     v: u64,
     id: usize,
 }
+impl Clone for Val {
+    fn clone(&self) -> Val {
+        Val { v: self.v, id: new_id() }
+    }
+}
+impl PartialEq for Val {
+    fn eq(&self, o: &Val) -> bool {
+        self.v == o.v
+    }
+}
 impl Val {
     fn new(v: u64) -> Val {
         Val { v, id: new_id() }
@@ -276,7 +286,8 @@ fn main() {
     let mut prefill: Vec<u8> = vec![];
     let mut keep: Vec<bool> = vec![];
     let mut panic_at: usize = 0;
-    let mut ops: Vec<(String, u8)> = vec![];
+    let mut dump_at_end = false;
+    let mut ops: Vec<(String, u8, Vec<String>)> = vec![];
     let mut collect: Option<(usize, Vec<u8>)> = None;
     for a in std::env::args().skip(1) {
         let (k, v) = a.split_once('=').unwrap();
@@ -293,14 +304,18 @@ fn main() {
             "prefill" => prefill = v.split(',').filter(|s| !s.is_empty()).map(|s| s.parse().unwrap()).collect(),
             "keep" => keep = v.split(',').filter(|s| !s.is_empty()).map(|s| s == "1").collect(),
             "panic_at" => panic_at = v.parse().unwrap(),
+            "dump" => dump_at_end = v == "1",
             "collect" => {
                 let (h, ks) = v.split_once(':').unwrap();
                 collect = Some((h.parse().unwrap(), ks.split(',').filter(|s| !s.is_empty()).map(|s| s.parse().unwrap()).collect()));
             }
             "ops" => {
                 for p in v.split(',').filter(|s| !s.is_empty()) {
+                    // op:key, or op:arg+arg+... (extend:1+2+0, sinsert:A+3)
                     let (a, b) = p.split_once(':').unwrap_or((p, "0"));
-                    ops.push((a.to_string(), b.parse().unwrap()));
+                    let parts: Vec<String> = b.split('+').map(|x| x.to_string()).collect();
+                    let k = parts.iter().find_map(|x| x.parse::<u8>().ok()).unwrap_or(0);
+                    ops.push((a.to_string(), k, parts));
                 }
             }
             _ => {}
@@ -327,6 +342,15 @@ fn main() {
         };
         let mut keep_i = 0usize;
         let mut calls = 0usize;
+        // a live iterator (iter_new / iter_next:n / iter_drain): weak consistency is judged by key instance (tag) and value
+        let iter_guard = m.guard();
+        let mut live: Option<flurry::iter::Iter<'_, Key, Val>> = None;
+        let mut it_s0: BTreeMap<u32, u64> = BTreeMap::new();
+        let mut it_prev: BTreeMap<u32, u64> = BTreeMap::new();
+        let mut it_touched: std::collections::BTreeSet<u32> = std::collections::BTreeSet::new();
+        let mut it_ever: std::collections::BTreeSet<(u32, u64)> = std::collections::BTreeSet::new();
+        let mut it_yield: Vec<(u32, u64)> = vec![];
+        let mut it_done = false;
         {
             let g = m.guard();
             for k in &prefill {
@@ -335,7 +359,9 @@ fn main() {
                 model.insert(*k, (100 + *k as u32, vnext));
             }
         }
-        for (step, (op, k)) in ops.iter().enumerate() {
+        let sets: [flurry::HashSet<Key, TableHasher>; 2] = [flurry::HashSet::with_hasher(TableHasher), flurry::HashSet::with_hasher(TableHasher)];
+        let mut set_model: [BTreeMap<u8, u32>; 2] = [BTreeMap::new(), BTreeMap::new()];
+        for (step, (op, k, parts)) in ops.iter().enumerate() {
             let k = *k;
             let tag = step as u32;
             let when = format!("after step {} ({} {})", step, op, k);
@@ -472,15 +498,186 @@ fn main() {
                         m.reserve(k as usize, &g);
                     }
                     "len" | "repin" => {}
-                    other => fail(format!("unknown op {}", other)),
+                    "iter_new" => {
+                        live = Some(m.iter(&iter_guard));
+                        it_s0 = model.values().map(|e| (e.0, e.1)).collect();
+                        it_prev = it_s0.clone();
+                        it_touched.clear();
+                        it_ever = it_s0.iter().map(|(a, b)| (*a, *b)).collect();
+                        it_yield.clear();
+                        it_done = false;
+                    }
+                    "iter_next" | "iter_drain" => {
+                        let n = if op == "iter_next" { k as usize } else { 100000 };
+                        let itr = live.as_mut().expect("iter_new first");
+                        for _ in 0..n {
+                            if it_done {
+                                break;
+                            }
+                            match itr.next() {
+                                None => {
+                                    it_done = true;
+                                }
+                                Some((kk, vv)) => {
+                                    it_yield.push((kk.tag, vv.v));
+                                    if it_yield.len() > 10000 {
+                                        fail(format!("{}: the iterator does not terminate", when));
+                                    }
+                                }
+                            }
+                        }
+                        if op == "iter_drain" {
+                            if !it_done {
+                                fail(format!("{}: the iterator did not finish", when));
+                            }
+                            for (tg, v) in &it_yield {
+                                if !it_ever.contains(&(*tg, *v)) {
+                                    fail(format!("{}: the iterator yielded (key instance {}, value {}), a pair that was never in the map during the iteration", when, tg, v));
+                                }
+                            }
+                            for (tg, v) in &it_s0 {
+                                if it_touched.contains(tg) {
+                                    continue;
+                                }
+                                let cnt = it_yield.iter().filter(|(a, _)| a == tg).count();
+                                if cnt != 1 {
+                                    fail(format!("{}: key instance {} was present and untouched for the whole iteration but was yielded {} times (yielded: {:?})", when, tg, cnt, it_yield));
+                                }
+                                if !it_yield.contains(&(*tg, *v)) {
+                                    fail(format!("{}: key instance {} was yielded with a value other than its (unchanged) value", when, tg));
+                                }
+                            }
+                            live = None;
+                        }
+                    }
+                    "extend" => {
+                        let mut items = vec![];
+                        for (j, x) in parts.iter().enumerate() {
+                            let kk: u8 = x.parse().unwrap();
+                            vnext += 1;
+                            let t = tag * 16 + 3000 + j as u32;
+                            items.push((Key::new(kk, t), Val::new(vnext)));
+                            let t0 = model.get(&kk).map(|e| e.0).unwrap_or(t);
+                            model.insert(kk, (t0, vnext));
+                        }
+                        let mut mm = &m;
+                        mm.extend(items);
+                    }
+                    "clone_eq" => {
+                        let c = m.clone();
+                        if c != m {
+                            fail(format!("{}: a clone does not compare equal to the map it was cloned from", when));
+                        }
+                        {
+                            let cg = c.guard();
+                            let got: BTreeMap<u8, u64> = c.iter(&cg).map(|(k, v)| (k.k, v.v)).collect();
+                            let want: BTreeMap<u8, u64> = model.iter().map(|(k, e)| (*k, e.1)).collect();
+                            if got != want {
+                                fail(format!("{}: clone() holds {:?}, the original {:?}", when, got, want));
+                            }
+                            c.insert(Key::new(200, 1), Val::new(1), &cg);
+                        }
+                        if c == m {
+                            fail(format!("{}: maps of different size compare equal", when));
+                        }
+                    }
+                    "index" => {
+                        let p = Key::new(k, 9000 + tag);
+                        let r = catch_unwind(AssertUnwindSafe(|| mr[&p].v));
+                        match (r, model.get(&k)) {
+                            (Ok(v), Some(e)) if v == e.1 => {}
+                            (Err(_), None) => {}
+                            (r, e) => fail(format!("{}: index = {:?}, reference {:?}", when, r.ok(), e)),
+                        }
+                    }
+                    "sinsert" | "sremove" | "stake" | "scontains" | "sget" => {
+                        let si = if parts[0] == "A" { 0 } else { 1 };
+                        let sg = sets[si].guard();
+                        let p = Key::new(k, 7000 + tag);
+                        let present = set_model[si].get(&k).cloned();
+                        match op.as_str() {
+                            "sinsert" => {
+                                let r = sets[si].insert(p, &sg);
+                                if r != present.is_none() {
+                                    fail(format!("{}: HashSet::insert returned {}", when, r));
+                                }
+                                if present.is_none() {
+                                    set_model[si].insert(k, 7000 + tag);
+                                }
+                            }
+                            "scontains" => {
+                                if sets[si].contains(&p, &sg) != present.is_some() {
+                                    fail(format!("{}: HashSet::contains is wrong", when));
+                                }
+                            }
+                            "sget" => {
+                                if sets[si].get(&p, &sg).map(|x| x.tag) != present {
+                                    fail(format!("{}: HashSet::get is wrong", when));
+                                }
+                            }
+                            "sremove" => {
+                                if sets[si].remove(&p, &sg) != present.is_some() {
+                                    fail(format!("{}: HashSet::remove is wrong", when));
+                                }
+                                set_model[si].remove(&k);
+                            }
+                            _ => {
+                                if sets[si].take(&p, &sg).map(|x| x.tag) != present {
+                                    fail(format!("{}: HashSet::take is wrong", when));
+                                }
+                                set_model[si].remove(&k);
+                            }
+                        }
+                    }
+                    "srelations" => {
+                        let (ga, gb) = (sets[0].guard(), sets[1].guard());
+                        let sub = set_model[0].keys().all(|x| set_model[1].contains_key(x));
+                        let sup = set_model[1].keys().all(|x| set_model[0].contains_key(x));
+                        let dis = !set_model[0].keys().any(|x| set_model[1].contains_key(x));
+                        let got = (sets[0].is_subset(&sets[1], &ga, &gb), sets[0].is_superset(&sets[1], &ga, &gb), sets[0].is_disjoint(&sets[1], &ga, &gb));
+                        if got != (sub, sup, dis) {
+                            fail(format!("{}: (is_subset, is_superset, is_disjoint) = {:?}, expected {:?}", when, got, (sub, sup, dis)));
+                        }
+                        for i in 0..2 {
+                            if sets[i].len() != set_model[i].len() {
+                                fail(format!("{}: set {} len() = {}, {} elements", when, i, sets[i].len(), set_model[i].len()));
+                            }
+                        }
+                    }
+                    other => {
+                        println!("REPLAY unsupported: unknown op {}", other);
+                        std::process::exit(3)
+                    }
                 }
             }));
             if r.is_err() && panic_at == 0 {
                 fail(format!("{}: the operation panicked", when));
             }
+            if live.is_some() && !op.starts_with("iter_") {
+                let now: BTreeMap<u32, u64> = model.values().map(|e| (e.0, e.1)).collect();
+                let tags: std::collections::BTreeSet<u32> = now.keys().chain(it_prev.keys()).cloned().collect();
+                for tg in tags {
+                    if now.get(&tg) != it_prev.get(&tg) {
+                        it_touched.insert(tg);
+                    }
+                }
+                for (a, b) in &now {
+                    it_ever.insert((*a, *b));
+                }
+                it_prev = now;
+            }
             shape_check(&m, &model, &when);
         }
         shape_check(&m, &model, "at the end");
+        if dump_at_end {
+            // translator validation: the structure the real code built, to be compared with the interpreter's heap
+            println!("DUMP len={} size_ctl={} count={}", flurry::verif_inspect::table_len(&m), flurry::verif_inspect::size_ctl(&m), flurry::verif_inspect::count(&m));
+            for l in flurry::verif_inspect::dump(&m) {
+                println!("DUMP {}", l);
+            }
+        }
+        drop(live);
+        drop(iter_guard);
         // a second thread can still write every key (no lock left behind)
         let (tx, rx) = std::sync::mpsc::channel();
         std::thread::scope(|s| {
